@@ -32,7 +32,8 @@ COMPONENTS = {
     "stub": ["CAN backend (SimBus)", "can.Notifier (deliveries are simulator events through Network.listeners)", "python-can cyclic send task (SimCyclicTask)"],
 }
 PROBES = ["subscribe-duplicate", "unsubscribe-all", "node-replaced", "node-removed", "frame-for-dead-node", "error-frame", "remote-frame",
-          "duplicate-frame", "extended-id-sent", "extended-id-received", "extra-sdo-channel", "scanner-reset", "node-re-added"]
+          "duplicate-frame", "extended-id-sent", "extended-id-received", "extra-sdo-channel", "scanner-reset", "node-re-added",
+          "unsubscribe-all-on-node-id", "removal-refused-after-application-unsubscribed-node-id"]
 # probes that mark an injected disturbance; the runner also counts them as fired faults in the evidence
 FAULT_PROBES = {'duplicate-frame': 'duplicate-frame', 'error-frame': 'error-frame', 'frame-for-dead-node': 'frame-for-removed-node', 'remote-frame': 'remote-frame'}
 
@@ -55,6 +56,7 @@ class NodeRec:
         self.channels = channels    # [(rx, tx)] SDO channels of a remote node
         self.alive = True
         self.responses = 0          # responses a local node must have sent
+        self.detached = set()       # service ids of this node that the application unsubscribed itself (unsubscribe-all)
 
     def fingerprint(self):
         n = self.node
@@ -77,6 +79,7 @@ class World:
         self.dead = []
         self.scanner_model = []
         self.lss_q = 0
+        self.limbo = set()          # node ids whose removal failed half-way (see _failed_removal)
 
     def _make_cb(self, k):
         def cb(can_id, data, timestamp):
@@ -126,6 +129,8 @@ def _expected_effects(w, can_id, data):
     """which live nodes must show an effect for this frame: {nid: effect}"""
     out = {}
     for nid, rec in w.nodes.items():
+        if can_id in rec.detached:
+            continue        # the application took the node's handler off this id itself
         if rec.kind == "remote":
             if can_id == 0x700 + nid:
                 out[nid] = "heartbeat"
@@ -233,8 +238,22 @@ def _receive(ctx, w, can_id, data, kind="data"):
     ctx.cover(("rx", kind, idclass, min(len(w.subs.get(can_id, [])), 3), bool(eff), any(r.nid == (can_id & 0x7F) for r in w.dead)))
 
 
+def _failed_removal(ctx, w, rec, exc, what):
+    """The application had unsubscribed one of the node's own ids (unsubscribe-all) before the node was removed or
+    replaced: the library's removal then fails with KeyError/ValueError half-way.  The statement says nothing about a
+    removal that did not complete, so the node (and its id) is not judged any further - neither as live nor as removed.
+    A removal that completes without an error is judged as usual: none of the old handlers may see another frame."""
+    if not isinstance(exc, (KeyError, ValueError)):
+        ctx.violation("C10/remove-node-raised/%s@%s" % (type(exc).__name__, site(exc)), "%s raised %r" % (what, exc))
+    del w.nodes[rec.nid]
+    w.limbo.add(rec.nid)
+    ctx.probe("removal-refused-after-application-unsubscribed-node-id")
+
+
 def _add_node(ctx, w, nid, kind):
     net = w.net
+    if nid in w.limbo:
+        return
     ctx.op("add-node", kind, nid, "replacing" if nid in w.nodes else "new")
     old = w.nodes.get(nid)
     if kind == "remote":
@@ -253,6 +272,8 @@ def _add_node(ctx, w, nid, kind):
         node = canopen.LocalNode(nid, canopen.ObjectDictionary())
         channels = []
         _, exc = call(net.add_node, node)
+    if exc is not None and old is not None and old.detached:
+        return _failed_removal(ctx, w, old, exc, "replacing %s node %d" % (old.kind, nid))
     if exc is not None:
         ctx.violation("C10/add-node-raised/%s@%s" % (type(exc).__name__, site(exc)), "adding %s node %d raised %r" % (kind, nid, exc))
     if old is not None:
@@ -269,6 +290,8 @@ def _remove_node(ctx, w, nid):
     try:
         del w.net[nid]
     except Exception as e:      # noqa
+        if rec.detached:
+            return _failed_removal(ctx, w, rec, e, "removing %s node %d" % (rec.kind, nid))
         ctx.violation("C10/remove-node-raised/%s@%s" % (type(e).__name__, site(e)), "removing %s node %d raised %r" % (rec.kind, nid, e))
     del w.nodes[nid]
     rec.alive = False
@@ -340,7 +363,7 @@ def scenario(ctx):
     for i in range(nops):
         with ctx.span("op"):
             op = ctx.weighted(((10, "rx"), (5, "sub"), (3, "unsub"), (1, "unsub-all"), (3, "add"), (2, "del"), (2, "tx"), (1, "txp"),
-                               (2, "rx-special"), (1, "scan-reset"), (1, "re-add")), "op")
+                               (2, "rx-special"), (1, "scan-reset"), (1, "re-add"), (1, "unsub-all-node")), "op")
             if op == "rx":
                 can_id = _pick_id(ctx, w)
                 _receive(ctx, w, can_id, _frame_for(ctx, w, can_id))
@@ -379,12 +402,30 @@ def scenario(ctx):
                     w.subs[cid] = []
                     ctx.probe("unsubscribe-all")
                     ctx.cover(("unsub-all",))
+            elif op == "unsub-all-node":
+                # the application unsubscribes everything on one of a live node's own service ids
+                if w.nodes:
+                    ids = sorted(w.nodes)
+                    rec = w.nodes[ids[ctx.choice(len(ids), "which")]]
+                    own = [0x600 + rec.nid] if rec.kind == "local" else [0x700 + rec.nid, 0x80 + rec.nid] + [tx for rx, tx in rec.channels]
+                    cid = own[ctx.choice(len(own), "ownid")]
+                    if cid not in rec.detached and not any(cid in r.detached for r in w.nodes.values()):
+                        ctx.op("unsubscribe-all", hex(cid), "(id of live %s node %d)" % (rec.kind, rec.nid))
+                        _, exc = call(net.unsubscribe, cid)
+                        if exc is not None:
+                            ctx.violation("C10/unexpected-exception/%s@%s" % (type(exc).__name__, site(exc)), "unsubscribe(0x%X) raised %r" % (cid, exc))
+                        w.subs[cid] = []
+                        for r in w.nodes.values():      # (two remote nodes can share the id of an extra SDO channel)
+                            if cid in ([0x600 + r.nid] if r.kind == "local" else [0x700 + r.nid, 0x80 + r.nid] + [tx for rx, tx in r.channels]):
+                                r.detached.add(cid)
+                        ctx.probe("unsubscribe-all-on-node-id")
+                        ctx.cover(("unsub-all-node", rec.kind))
             elif op == "add":
                 _add_node(ctx, w, NODE_IDS[ctx.choice(len(NODE_IDS), "nid")], ("remote", "local")[ctx.choice(2, "kind")])
             elif op == "re-add":
                 # the same node object is stored again under its id: it stays the node of that id
-                if w.nodes:
-                    ids = sorted(w.nodes)
+                ids = sorted(n for n, r in w.nodes.items() if not r.detached)
+                if ids:
                     nid = ids[ctx.choice(len(ids), "which")]
                     rec = w.nodes[nid]
                     ctx.op("re-add-same-node-object", rec.kind, nid)
